@@ -63,11 +63,15 @@ def view(cs):
 
 def run_history(events):
     """Events: 0-2 enter setting k; 3 leave normally; 4 leave through an exception; 5 create inverse; 6 apply last inverse; 7 read;
-    8 transpose the last inverse (the result is tracked as a further inverse with the same expected configuration)."""
+    8 transpose the last inverse (the result is tracked as a further inverse with the same expected configuration);
+    9/10 construct (without entering) a Config with setting 0/1; 11 enter the most recently constructed one if it is not active already.
+    For such a deferred block the named setting must be in force inside, the un-named ones may be inherited from construction or
+    from entry time (the property does not say), and leaving it must restore what was active before it was ENTERED."""
     install()
     try:
         model = [view(DEFAULT)]
         cms, invs, inv_model = [], [], []
+        made = None
         for e in events:
             if 0 <= e < 3:
                 cm = Config(**SETTINGS[e])
@@ -78,6 +82,20 @@ def run_history(events):
                 model.append((s.get('solver', so), s.get('solver_throw', th), tuple(sorted(s['solver_options'].items())) if 'solver_options' in s else op))
                 if view(entered) != model[-1]:
                     return False
+            elif e in (9, 10):
+                made = (Config(**SETTINGS[e - 9]), e - 9, model[-1])
+            elif e == 11 and made is not None and not any(cm is made[0] for cm in cms):
+                cm, k, at_ctor = made
+                entered = cm.__enter__()
+                cms.append(cm)
+                got = view(entered)
+                s = SETTINGS[k]
+                allowed = []
+                for so, th, op in (at_ctor, model[-1]):
+                    allowed.append((s.get('solver', so), s.get('solver_throw', th), tuple(sorted(s['solver_options'].items())) if 'solver_options' in s else op))
+                if got not in allowed:
+                    return False
+                model.append(got)
             elif e == 3 and cms:
                 cms.pop().__exit__(None, None, None)
                 model.pop()
